@@ -1,6 +1,7 @@
 (* Extraction of the quoting / string-escape / rendering model (C20): ExtrOcamlBasic only. *)
 From Coq Require Extraction ExtrOcamlBasic.
-From Falco Require Import Base.Res Base.Bytes Base.Utf8 Model.Escape.
+From Falco Require Import Base.Res Base.Bytes Base.Utf8 Model.Escape Model.Rules Model.Snippets.
 Extraction Language OCaml.
 Extraction "escape_model.ml" vcl_quote clean_comment sanitize decode_string_escapes read_string
-  render_dict render_acl render_backend render_director parse_table n2b b2n.
+  render_dict render_acl render_backend render_director parse_table n2b b2n
+  render_rule render_content_type longstring scoped include_of t_none.
